@@ -462,7 +462,7 @@ def compare(projects, raw_truths):
               "metas_hypothesis_broken": [], "disagreements": 0, "codes": sc["codes"],
               "compiler_version": {"config_rs_text": cv_text, "harness": sc["compiler_version"], "model": None}}
     stats = {"compared": 0, "not_encodable": 0, "truth_unavailable": 0, "canon_idempotent": 0,
-             "canon_not_idempotent": 0, "hypothesis_broken": [],
+             "canon_not_idempotent": 0, "hypothesis_broken": [], "no_directory_revisited": 0, "directory_revisited": [],
              "with_os_error": 0, "with_parse_error": 0, "with_include_error": 0,
              "named_file_read_as_include_first": 0,
              "parse_fail_code": code, "reports_compared_level_and_code": 0, "levels_seen": {}, "codes_seen": {},
@@ -484,6 +484,13 @@ def compare(projects, raw_truths):
             else:
                 stats["canon_not_idempotent"] += 1
                 stats["hypothesis_broken"].append(p.describe())
+        # hypothesis `dirs_revisited = false` of the theorems since the mirror of fix 517e7a0 (a named directory met again through a
+        # link is read once): evaluated by the extracted driver on every project
+        dr = m.pop("dirs_revisited", None)
+        if dr is False:
+            stats["no_directory_revisited"] += 1
+        elif dr is True:
+            stats["directory_revisited"].append(p.describe())
         m["user_ids"] = sorted(m.get("user_ids", []))
         # ---- third pass: the stages of Model.FrontStages (compared separately from the Includes part)
         has_stage = "stage" in m
